@@ -321,7 +321,6 @@ SPLIT_CHECKS = {
     "missing-values": lambda t: "split_names - input_names" in t or "missing_inputs" in t,
     "unrecognised-values": lambda t: "input_names - split_names" in t or "unrecognised_inputs" in t,
     "container_ndim-field": lambda t: "not in split_names" in t,
-    "existing-splitter": lambda t: "self._splitter and (not overwrite)" in t or "self._splitter and not overwrite" in t,
 }
 
 
@@ -346,6 +345,22 @@ def check_c05(A: Analysis, col: Collector):
             col.ok("C05.split", f"Task.split checks `{name}` (`{hit[0][:60]}`)", A.loc(sp.node))
         else:
             col.fail("C05.split", sp.qualname, f"check-missing:{name}", f"Task.split no longer rejects `{name}`", A.loc(sp.node))
+    # the guard against splitting / combining twice rejects unless `overwrite`: its test is exactly
+    # `<stored request> and not <overwrite parameter>`; any further conjunct narrows the rejection
+    for fq, attr in (("pydra.compose.base.task.Task.split", "_splitter"), ("pydra.compose.base.task.Task.combine", "_combiner")):
+        f = A.func(fq)
+        guards = [n for n in walk_own(f.node) if isinstance(n, ast.If) and n.body and isinstance(n.body[-1], ast.Raise) and any(isinstance(a, ast.Attribute) and a.attr == attr and isinstance(a.value, ast.Name) and a.value.id == "self" for a in ast.walk(n.test))]
+        A.anchor(f"guard on self.{attr} in {f.name}", guards)
+        params = {p_.arg for p_ in f.params()}
+        for g in guards:
+            ops = g.test.values if isinstance(g.test, ast.BoolOp) and isinstance(g.test.op, ast.And) else [g.test]
+            stored = [o for o in ops if isinstance(o, ast.Attribute) and o.attr == attr]
+            negflag = [o for o in ops if isinstance(o, ast.UnaryOp) and isinstance(o.op, ast.Not) and isinstance(o.operand, ast.Name) and o.operand.id in params]
+            extra = [o for o in ops if o not in stored and o not in negflag]
+            if stored and negflag and not extra:
+                col.ok("C05.split", f"{f.name}: a second {attr.strip('_')} is rejected on exactly `{norm(g.test)}`", A.loc(g))
+            else:
+                col.fail("C05.split", f.qualname, f"twice-guard-narrowed:{attr}:" + "&".join(shape(o, 40) for o in extra), f"the guard against setting a {attr.strip('_')} twice is `{norm(g.test, 80)}`: the extra condition(s) {[norm(o, 40) for o in extra]} let some repeated requests through without overwrite=True (the earlier values are silently replaced), and whether the request is rejected depends on how it is spelled", A.loc(g))
     # a check that reads an exhausted iterator sees nothing and never fires: no single-use iterator
     # (generator call / generator expression / map, filter, zip ...) bound to a local is read twice
     import ast as _ast
